@@ -92,6 +92,12 @@ MUTANTS = [
          old='    return std::max(tensor_size_t{1}, idiv(features.size(), concurrency));\n}\n', new='    return std::max(tensor_size_t{1}, idiv(features.size(), concurrency));\n}\n\nauto features_of_thread(const indices_cmap_t& features, const size_t concurrency, const tensor_size_t chunk)\n{\n    const auto chunksize = features_per_thread(features, concurrency);\n    const auto begin     = std::min(chunk * chunksize, features.size());\n    const auto end       = std::min(begin + chunksize, features.size());\n    return make_range(begin, end);\n}\n', more=[('    map(features.size(), features_per_thread(features, concurrency()),\n        [&](const tensor_size_t begin, const tensor_size_t end, const size_t tnum)\n        {\n            assert(tnum < m_buffers.size());\n            for (tensor_size_t index = begin; index < end; ++index)\n            {\n                const auto ifeature = features(index);\n                callback(ifeature, tnum, dataset().select(samples, ifeature, m_buffers[tnum].m_sclass));', '    map(static_cast<tensor_size_t>(concurrency()),\n        [&](const tensor_size_t chunk, const size_t tnum)\n        {\n            assert(tnum < m_buffers.size());\n            const auto range = features_of_thread(features, concurrency(), chunk);\n            for (tensor_size_t index = range.begin(); index < range.end(); ++index)\n            {\n                const auto ifeature = features(index);\n                callback(ifeature, tnum, dataset().select(samples, ifeature, m_buffers[tnum].m_sclass));')]),
     dict(property="C18", name="select-loop-skips-last-of-chunk", rule="R-C18-8", file="src/dataset/iterator.cpp",
          old='    map(features.size(), features_per_thread(features, concurrency()),\n        [&](const tensor_size_t begin, const tensor_size_t end, const size_t tnum)\n        {\n            assert(tnum < m_buffers.size());\n            for (tensor_size_t index = begin; index < end; ++index)\n            {\n                const auto ifeature = features(index);\n                callback(ifeature, tnum, dataset().select(samples, ifeature, m_buffers[tnum].m_sclass));', new='    map(features.size(), features_per_thread(features, concurrency()),\n        [&](const tensor_size_t begin, const tensor_size_t end, const size_t tnum)\n        {\n            assert(tnum < m_buffers.size());\n            for (tensor_size_t index = begin; index + 1 < end; ++index)\n            {\n                const auto ifeature = features(index);\n                callback(ifeature, tnum, dataset().select(samples, ifeature, m_buffers[tnum].m_sclass));'),
+    dict(property="C15", name="factory-reader-skips-lookup-on-failed-id", rule="R-C15-8", file="include/nano/core/stream.h", tu="src/gboost/model.cpp",
+         old='    std::string type_id;\n    if (!::nano::read(stream, type_id))\n    {\n        stream.setstate(std::ios_base::failbit);\n    }\n\n    object = tobject::all().get(type_id);\n    if (!object)\n    {\n        stream.setstate(std::ios_base::failbit);\n        return stream;\n    }\n', new='    std::string type_id;\n    if (::nano::read(stream, type_id))\n    {\n        object = tobject::all().get(type_id);\n        if (!object)\n        {\n            stream.setstate(std::ios_base::failbit);\n            return stream;\n        }\n    }\n'),
+    dict(property="C17", name="dtor-drains-queue-worker-notify-one", rule="R-C17-3", file="src/core/parallel.cpp",
+         old='            task = std::move(m_queue.m_tasks.front());\n            m_queue.m_tasks.pop_front();\n', new='            task = std::move(m_queue.m_tasks.front());\n            m_queue.m_tasks.pop_front();\n\n            if (m_queue.m_tasks.empty())\n            {\n                m_queue.m_condition.notify_one();\n            }\n', more=[('        const std::scoped_lock lock(m_queue.m_mutex);\n        m_queue.m_stop = true;', '        std::unique_lock lock(m_queue.m_mutex);\n        m_queue.m_condition.wait(lock, [&] { return m_queue.m_tasks.empty(); });\n        m_queue.m_stop = true;')]),
+    dict(property="C17", name="dtor-drains-queue-nobody-notifies", rule="R-C17-3", file="src/core/parallel.cpp",
+         old='        const std::scoped_lock lock(m_queue.m_mutex);\n        m_queue.m_stop = true;', new='        std::unique_lock lock(m_queue.m_mutex);\n        m_queue.m_condition.wait(lock, [&] { return m_queue.m_tasks.empty(); });\n        m_queue.m_stop = true;', also=[("include/nano/core/parallel.h", "        m_condition.notify_one();", "        m_condition.notify_all();")]),
     dict(property="C17", name="stop-set-outside-lock", rule="R-C17-1", file="src/core/parallel.cpp",
          old="""    {
         const std::scoped_lock lock(m_queue.m_mutex);
@@ -1273,6 +1279,8 @@ BENIGN = [
          old='    auto shuffled = indices_t{samples.size()};\n    for (tensor_size_t i = 0; i < samples.size(); ++i)\n    {\n        assert(samples(i) >= 0 && samples(i) < shuffled_all_samples.size());\n        shuffled(i) = shuffled_all_samples(samples(i));\n    }\n\n    return shuffled;', new='    const auto count  = samples.size();\n    auto       mapped = indices_t{count};\n    for (tensor_size_t k = count; k > 0; --k)\n    {\n        const auto sample = samples(k - 1);\n        mapped(k - 1)     = shuffled_all_samples(sample);\n    }\n    return mapped;'),
     dict(property="C18", name="select-loop-one-chunk-per-worker-ceil", file="src/dataset/iterator.cpp",
          old='    return std::max(tensor_size_t{1}, idiv(features.size(), concurrency));\n}\n', new='    return std::max(tensor_size_t{1}, idiv(features.size(), concurrency));\n}\n\nauto features_of_thread(const indices_cmap_t& features, const size_t concurrency, const tensor_size_t chunk)\n{\n    const auto chunksize = (features.size() + static_cast<tensor_size_t>(concurrency) - 1) / static_cast<tensor_size_t>(concurrency);\n    const auto begin     = std::min(chunk * chunksize, features.size());\n    const auto end       = std::min(begin + chunksize, features.size());\n    return make_range(begin, end);\n}\n', more=[('    map(features.size(), features_per_thread(features, concurrency()),\n        [&](const tensor_size_t begin, const tensor_size_t end, const size_t tnum)\n        {\n            assert(tnum < m_buffers.size());\n            for (tensor_size_t index = begin; index < end; ++index)\n            {\n                const auto ifeature = features(index);\n                callback(ifeature, tnum, dataset().select(samples, ifeature, m_buffers[tnum].m_sclass));', '    map(static_cast<tensor_size_t>(concurrency()),\n        [&](const tensor_size_t chunk, const size_t tnum)\n        {\n            assert(tnum < m_buffers.size());\n            const auto range = features_of_thread(features, concurrency(), chunk);\n            for (tensor_size_t index = range.begin(); index < range.end(); ++index)\n            {\n                const auto ifeature = features(index);\n                callback(ifeature, tnum, dataset().select(samples, ifeature, m_buffers[tnum].m_sclass));')]),
+    dict(property="C15", name="factory-reader-early-return-nullptr-test", file="include/nano/core/stream.h", tu="src/gboost/model.cpp",
+         old='    std::string type_id;\n    if (!::nano::read(stream, type_id))\n    {\n        stream.setstate(std::ios_base::failbit);\n    }\n\n    object = tobject::all().get(type_id);\n    if (!object)\n    {\n        stream.setstate(std::ios_base::failbit);\n        return stream;\n    }\n', new='    std::string type_id;\n    if (!::nano::read(stream, type_id))\n    {\n        stream.setstate(std::ios_base::failbit);\n        return stream;\n    }\n\n    object = tobject::all().get(type_id);\n    if (object == nullptr)\n    {\n        stream.setstate(std::ios_base::failbit);\n        return stream;\n    }\n'),
     dict(property="C07", name="get-descent-test-inlined", file="src/lsearchk.cpp",
          old="    if (!state.has_descent(descent))", new="    if (const auto dg0 = state.dg(descent); !(dg0 < 0.0))"),
     dict(property="C07", name="lemarechal-swap-operands", file="src/lsearchk/lemarechal.cpp",
@@ -1296,6 +1304,8 @@ BENIGN = [
     dict(property="C09", name="map-grouped-tasks-round-up", file="include/nano/core/parallel.h", tu="src/core/parallel.cpp",
          old='            section_t section;\n            section.reserve(static_cast<size_t>((elements + chunksize - 1) / chunksize));\n            {\n                const std::scoped_lock lock(m_queue.m_mutex);\n                for (tsize begin = 0; begin < elements; begin += chunksize)\n                {\n                    const auto end = std::min(begin + chunksize, elements);\n                    section.emplace_back(\n                        m_queue.enqueue_no_lock([op, begin, end](const size_t tnum) { op(begin, end, tnum); }));\n                }\n            }',
          new='            const auto chunks    = (elements + chunksize - 1) / chunksize;\n            const auto groupsize = std::max(tsize(1), chunks / static_cast<tsize>(4U * size()));\n            const auto tasksize  = groupsize * chunksize;\n            const auto tasks     = (chunks + groupsize - 1) / groupsize;\n\n            section_t section;\n            section.reserve(static_cast<size_t>(tasks));\n            {\n                const std::scoped_lock lock(m_queue.m_mutex);\n                for (tsize task = 0; task < tasks; ++task)\n                {\n                    const auto tbegin = task * tasksize;\n                    const auto tend   = std::min(tbegin + tasksize, elements);\n                    section.emplace_back(m_queue.enqueue_no_lock(\n                        [op, tbegin, tend, chunksize](const size_t tnum)\n                        {\n                            for (auto begin = tbegin; begin < tend; begin += chunksize)\n                            {\n                                op(begin, std::min(begin + chunksize, tend), tnum);\n                            }\n                        }));\n                }\n            }'),
+    dict(property="C17", name="dtor-drains-queue-notify-all-everywhere", file="src/core/parallel.cpp",
+         old='            task = std::move(m_queue.m_tasks.front());\n            m_queue.m_tasks.pop_front();\n', new='            task = std::move(m_queue.m_tasks.front());\n            m_queue.m_tasks.pop_front();\n\n            if (m_queue.m_tasks.empty())\n            {\n                m_queue.m_condition.notify_all();\n            }\n', more=[('        const std::scoped_lock lock(m_queue.m_mutex);\n        m_queue.m_stop = true;', '        std::unique_lock lock(m_queue.m_mutex);\n        m_queue.m_condition.wait(lock, [&] { return m_queue.m_tasks.empty(); });\n        m_queue.m_stop = true;')], also=[("include/nano/core/parallel.h", "        m_condition.notify_one();", "        m_condition.notify_all();")]),
     dict(property="C17", name="notify-one-to-all", file="include/nano/core/parallel.h",
          old="m_condition.notify_one();", new="m_condition.notify_all();"),
     dict(property="C17", name="worker-extra-log-and-scope", file="src/core/parallel.cpp",
